@@ -372,6 +372,12 @@ func (e *Engine) intrinsic(fn *ssa.Function, name string, args []Value, st *Stat
 		return e.sortSlice(st, depth, site, args[0], args[1], name == "sort.SliceStable"), true
 	case "reflect.DeepEqual":
 		return one(st, e.deepEqual(st, args[0], args[1], 0)), true
+	case "math.Max", "math.Min":
+		a, b := float64(args[0].(FloatV)), float64(args[1].(FloatV))
+		if name == "math.Max" {
+			return one(st, FloatV(math.Max(a, b))), true
+		}
+		return one(st, FloatV(math.Min(a, b))), true
 	case "math.Floor":
 		return one(st, FloatV(math.Floor(float64(args[0].(FloatV))))), true
 	case "math.Abs":
@@ -412,7 +418,39 @@ func (e *Engine) intrinsic(fn *ssa.Function, name string, args []Value, st *Stat
 			return one(st, BVs(int64(unicode.ToUpper(rune(r))), 32)), true
 		}
 		e.unsupported("%s on symbolic rune", name)
-	case "errors.Is", "errors.As":
+	case "errors.Is":
+		// walk the Unwrap chain
+		cur := args[0]
+		target := args[1]
+		for i := 0; i < 20; i++ {
+			ci, ok := cur.(IfaceV)
+			if !ok || ci.t == nil {
+				return one(st, FF), true
+			}
+			if eq := e.valEq(cur, target); eq == TT {
+				return one(st, TT), true
+			} else if eq != FF {
+				e.unsupported("errors.Is with symbolic comparison")
+			}
+			ms := e.prog.MethodSets.MethodSet(ci.t)
+			var unwrap *ssa.Function
+			for j := 0; j < ms.Len(); j++ {
+				if ms.At(j).Obj().Name() == "Unwrap" {
+					unwrap = e.prog.MethodValue(ms.At(j))
+				}
+			}
+			if unwrap == nil {
+				return one(st, FF), true
+			}
+			outs := e.callFunction(unwrap, []Value{ci.v}, nil, st, depth+1, site)
+			if len(outs) != 1 || outs[0].pan != nil {
+				e.unsupported("errors.Is: Unwrap has %d outcomes", len(outs))
+			}
+			st = outs[0].st
+			cur = outs[0].ret
+		}
+		e.unsupported("errors.Is: chain too long")
+	case "errors.As":
 		e.unsupported("%s", name)
 	}
 	if fn.Pkg != nil {
